@@ -51,6 +51,9 @@ def plan(tier, seed):
                             {"family": "unordered", "costs": [lab[0], lab[4]]})
         out += L.split_plan("unordered:U4x2x2", spaces.shape_pairs(4, 2, min_obj=4), u2, 150,
                             {"family": "unordered", "costs": [lab[1], lab[2]]})
+        # 5 object leaves in a chain on one species: four nested ancestors, co-optimal labellings three levels deep
+        out += L.split_plan("unordered:U5chainx1x3", [(sh, None) for sh in spaces.chain_shapes(5)], u3, 150,
+                            {"family": "unordered", "costs": [lab[0]]})
         return out
     for osh, ssh in spaces.shape_pairs(4, 4):
         out.append({"slice": "plain:P4x4", "family": "plain", "osh": osh, "ssh": ssh, "costs": PLAIN_MENU})
@@ -66,6 +69,8 @@ def plan(tier, seed):
                         {"family": "unordered", "costs": lab[:3]})
     out += L.split_plan("unordered:U5x2x2", spaces.shape_pairs(5, 2, min_obj=5), u2, 150,
                         {"family": "unordered", "costs": lab[:2]})
+    out += L.split_plan("unordered:U5chainx1x3", [(sh, None) for sh in spaces.chain_shapes(5)], u3, 150,
+                        {"family": "unordered", "costs": lab[:3]})
     return out
 
 
